@@ -9,9 +9,9 @@ _GEN_TIE = {
     "C06": ("BV.Props.C02Gen", "get_range", "get_range_generated_wrap, get_range_generated"),
     "C01": ("BV.Props.C01Gen", "WrapPosition, BrotliEncodeMlen, StoreCompressedMetaBlockHeader",
             "stated DIRECTLY over the generated definition: wrap_position_closed_form, wrap_position_low_bits (low 30 bits survive), wrap_position_identity (< 3 GiB), wrap_position_range (fits u32; never below 1 GiB again; below 3 GiB once wrapped), wrap_position_distance (distances modulo 2 GiB) — every u64 position; store_compressed_header_generated: the generated write list of StoreCompressedMetaBlockHeader, run on any writer, equals the meta-block writer model's header (both ISLAST values, every legal MLEN)"),
-    "C16": ("BV.Props.C16Gen", "parse_window_size, NewStreamData::new, NewStreamData::sufficient, BroCatli::new_brotli_file, BroCatli::new_with_window_size (struct-by-value mode)", "parse_window_size_generated (>= 2 bytes: the model never panics and returns the generated answer), parse_window_size_generated_of_ok (any slice: whenever the model returns), new_stream_data_new_generated, sufficient_generated, new_brotli_file_generated (every state), new_with_window_size_generated / new_with_window_size_panics (every u8 argument: the generated state is the model's whenever the model returns; the generated debug no-panic condition holds exactly when the model does not panic)"),
-    "C03": ("BV.Props.C16Gen", "parse_window_size, NewStreamData::new, NewStreamData::sufficient, BroCatli::new_brotli_file, BroCatli::new_with_window_size", "parse_window_size_generated, parse_window_size_generated_of_ok, new_stream_data_new_generated, sufficient_generated, new_brotli_file_generated, new_with_window_size_generated, new_with_window_size_panics"),
-    "C12": ("BV.Props.C16Gen", "parse_window_size, NewStreamData::new, NewStreamData::sufficient, BroCatli::new_brotli_file, BroCatli::new_with_window_size", "parse_window_size_generated, parse_window_size_generated_of_ok, new_stream_data_new_generated, sufficient_generated, new_brotli_file_generated, new_with_window_size_generated, new_with_window_size_panics"),
+    "C16": ("BV.Props.C16Gen", "parse_window_size, NewStreamData::new, NewStreamData::sufficient, BroCatli::new_brotli_file, BroCatli::new_with_window_size, BroCatli::append_eof_metablock_to_last_bytes (struct-by-value mode)", "parse_window_size_generated (>= 2 bytes: the model never panics and returns the generated answer), parse_window_size_generated_of_ok (any slice: whenever the model returns), new_stream_data_new_generated, sufficient_generated, new_brotli_file_generated (every state), new_with_window_size_generated / new_with_window_size_panics (every u8 argument: the generated state is the model's whenever the model returns; the generated debug no-panic condition holds exactly when the model does not panic), append_eof_generated / append_eof_ok_generated (every state with a two-byte last_bytes array: whenever the model returns — it panics on an unsanitised last byte and on each u8 overflow — the generated state is the model's and the generated no-panic condition holds)"),
+    "C03": ("BV.Props.C16Gen", "parse_window_size, NewStreamData::new, NewStreamData::sufficient, BroCatli::new_brotli_file, BroCatli::new_with_window_size, BroCatli::append_eof_metablock_to_last_bytes", "parse_window_size_generated, parse_window_size_generated_of_ok, new_stream_data_new_generated, sufficient_generated, new_brotli_file_generated, new_with_window_size_generated, new_with_window_size_panics, append_eof_generated, append_eof_ok_generated"),
+    "C12": ("BV.Props.C16Gen", "parse_window_size, NewStreamData::new, NewStreamData::sufficient, BroCatli::new_brotli_file, BroCatli::new_with_window_size, BroCatli::append_eof_metablock_to_last_bytes", "parse_window_size_generated, parse_window_size_generated_of_ok, new_stream_data_new_generated, sufficient_generated, new_brotli_file_generated, new_with_window_size_generated, new_with_window_size_panics, append_eof_generated, append_eof_ok_generated"),
     "C04": ("BV.Props.C04Gen", "BrotliStoreSyncMetaBlock, BrotliWriteEmptyLastMetaBlock (bit-writer functions: the generated value is the ordered list of BrotliWriteBits / JumpToByteBoundary calls)",
             "store_sync_meta_block_generated, write_empty_last_meta_block_generated: the generated operation list run on ANY writer (runOps, BV/Lemmas/RsWriter.lean) equals the header model"),
     "C15": ("BV.Props.C15Gen", "EncodeWindowBits, SanitizeParams (+ check_large_window_ok), ComputeLgBlock, ComputeRbBits, update_size_hint (+ unprocessed_input_size), encode_base_128, BrotliWriteMetadataMetaBlock (BrotliEncoderParams / BrotliEncoderStateStruct as Lean structures of their supported fields)",
@@ -66,3 +66,15 @@ if "C15" in PROPS:
 
 if "C20" in PROPS:
     PROPS["C20"]["level_note"] = PROPS["C20"]["level_note"] + (" set_parameter (free function and method), SanitizeParams, ComputeLgBlock and EncodeWindowBits of the model are in addition PROVED equal to the Lean definitions generated from the current Rust text (BV.Props.C20Gen; trusted: tools/rs2lean.py); the theorem set_parameter_table of C20 therefore speaks about the real parameter table, not only about a hand copy of it.")
+
+# C15: DIRECT theorems over generated definitions that have no hand-written model
+if "C15" in PROPS and "BV.Props.C15GenD" not in PROPS["C15"]["lean_modules"]:
+    PROPS["C15"]["lean_modules"] = PROPS["C15"]["lean_modules"] + ["BV.Props.C15GenD"]
+    PROPS["C15"]["rule"] = PROPS["C15"].get("rule", "") + (
+        " Direct theorems over generated code (BV.Props.C15GenD, no hand-written model in between): for EVERY parameter structure, the "
+        "(NDIRECT, NPOSTFIX) pair ChooseDistanceParams hands to BrotliInitDistanceParams is legal for the meta-block header (chosen_valid: "
+        "NPOSTFIX <= 3, NDIRECT <= 120 a multiple of 2^NPOSTFIX with a 4-bit quotient; illegal requests fall back to (0, 0)), qualities < 4 use (0, 0) "
+        "and font mode (1, 12) (chosen_low_quality, chosen_font), the distance alphabet has 16 + NDIRECT + 24 * 2^(NPOSTFIX+1) symbols (62 * ... with "
+        "large windows) and without large windows the largest distance is NDIRECT + 2^(26+NPOSTFIX) - 2^(NPOSTFIX+2) (choose_distance_params_small, "
+        "choose_distance_params_large_alphabet), and no field other than dist is touched (choose_distance_params_frame). The large-window max_distance "
+        "table of BrotliInitDistanceParams is translated but nothing is claimed about it.")
